@@ -236,6 +236,12 @@ fn type_text(rtype: u16, t: &mut Tape) -> String {
 
 /// Escapes one octet for use inside a name label or an unquoted string.
 fn esc_octet(b: u8, in_name: bool, t: &mut Tape, out: &mut String) {
+    // RFC 1035 §5.1: \X quotes any character other than a digit - also the newline itself, which then
+    // is data and does not end the line (the file still has one more physical line afterwards)
+    if b == b'\n' && t.flag("backslash-newline", 2) {
+        out.push_str("\\\n");
+        return;
+    }
     let special = matches!(b, b' ' | b'\t' | b'(' | b')' | b';' | b'"' | b'\\' | b'@' | b'$') || (in_name && b == b'.');
     if !(0x21..=0x7e).contains(&b) {
         out.push_str(&format!("\\{b:03}"));
@@ -324,6 +330,8 @@ fn char_string_text(s: &[u8], t: &mut Tape) -> String {
             if b == b'"' || b == b'\\' {
                 out.push('\\');
                 out.push(b as char);
+            } else if b == b'\n' && t.flag("backslash-newline", 2) {
+                out.push_str("\\\n");
             } else if (0x20..=0x7e).contains(&b) || b == b'\t' {
                 // raw spaces, tabs, semicolons and parentheses are fine inside quotes
                 out.push(b as char);
@@ -499,7 +507,9 @@ pub fn print(records: &[ZRec], tape: &[u16], ctx: &mut Ctx) -> Printed {
             ctx.default_ttl = Some(r.ttl);
         }
         // the record
-        let start_line = line;
+        // (counted from the text itself: directive lines and fields may contain quoted newlines)
+        let start_line = 1 + out.bytes().filter(|b| *b == b'\n').count();
+        let _ = line;
         let origin = ctx.origin.clone();
         let mut fields: Vec<String> = Vec::new();
         let omit_owner = ctx.prev_owner.as_ref() == Some(&r.owner) && t.pick(3) != 0;
